@@ -78,7 +78,27 @@ fn enc(db: &SparqlDatabase, s: &str) -> u32 {
     db.dictionary.write().unwrap().encode(s)
 }
 
+/// A term of the case input: a dictionary string, or ["qt", s, p, o] for a quoted triple (nested).
+fn enc_term(db: &SparqlDatabase, t: &Value, base: Option<i64>) -> u32 {
+    match t {
+        Value::String(s) => enc(db, &absolutize(s, base)),
+        Value::Array(a) if a.len() == 4 && a[0] == "qt" => {
+            let (s, p, o) = (enc_term(db, &a[1], base), enc_term(db, &a[2], base), enc_term(db, &a[3], base));
+            db.quoted_triple_store.write().unwrap().encode(s, p, o)
+        }
+        other => panic!("bad term {}", other),
+    }
+}
+
+/// Identifier -> dictionary string, or ["qt", s, p, o] for a quoted triple (structure, not the printed form).
 fn dec(db: &SparqlDatabase, id: u32, base: Option<i64>) -> Value {
+    if shared::quoted_triple_store::is_quoted_triple_id(id) {
+        let parts = db.quoted_triple_store.read().unwrap().decode(id);
+        return match parts {
+            Some((s, p, o)) => json!(["qt", dec(db, s, base), dec(db, p, base), dec(db, o, base)]),
+            None => json!({"undecodable": id}),
+        };
+    }
     match db.decode_any(id) {
         Some(s) => Value::String(relativize(&s, base)),
         None => json!({"undecodable": id}),
@@ -180,24 +200,24 @@ fn main() {
             let mut db = SparqlDatabase::new();
             for q in case["init"].as_array().cloned().unwrap_or_default() {
                 let q = q.as_array().unwrap().clone();
-                let t = |i: usize| enc(&db, &absolutize(q[i].as_str().unwrap(), base));
+                let t = |i: usize| enc_term(&db, &q[i], base);
                 let quad = Quad {
                     subject: t(0),
                     predicate: t(1),
                     object: t(2),
-                    graph: match q.get(3).and_then(|g| g.as_str()) {
-                        Some(g) => GraphId::Named(enc(&db, &absolutize(g, base))),
-                        None => GraphId::Default,
+                    graph: match q.get(3) {
+                        Some(g) if !g.is_null() => GraphId::Named(enc_term(&db, g, base)),
+                        _ => GraphId::Default,
                     },
                 };
                 db.add_quad(quad);
             }
             for g in case["graphs"].as_array().cloned().unwrap_or_default() {
-                let id = enc(&db, &absolutize(g.as_str().unwrap(), base));
+                let id = enc_term(&db, &g, base);
                 db.dataset_index.create_graph(GraphId::Named(id));
             }
             for t in case["dict"].as_array().cloned().unwrap_or_default() {
-                enc(&db, &absolutize(t.as_str().unwrap(), base));
+                enc_term(&db, &t, base);
             }
             let (q0, g0) = snapshot(&db, base);
             let mut steps: Vec<Value> = vec![json!({"r": ["init"], "q": q0, "g": g0, "p": prefixes(&db)})];
